@@ -212,6 +212,10 @@ impl<const LIMBS: usize> Uint<LIMBS> {
         let mut result = self;
         let limb_num = (index / Limb::BITS) as usize;
         let index_in_limb = index % Limb::BITS;
+        if limb_num >= LIMBS {
+            // out of range: no bit to set, as in the constant-time `set_bit`
+            return result;
+        }
         if bit_value {
             result.limbs[limb_num].0 |= 1 << index_in_limb;
         } else {
